@@ -2,6 +2,7 @@ mod common;
 mod c01;
 mod c04;
 mod c05;
+mod c07;
 mod c08;
 mod c11;
 mod c12;
@@ -25,6 +26,7 @@ fn main() {
                 "C01" => c01::replay(cases, verd),
                 "C04" => c04::replay(cases, verd),
                 "C05" => c05::replay(cases, verd),
+                "C07" => c07::replay(cases, verd),
                 "C08" => c08::replay(cases, verd),
                 "C12" => c12::replay(cases, verd),
                 "C15" => c15::replay(cases, verd),
